@@ -213,6 +213,11 @@ impl WriteSource for pr::ExprKind {
                 }
                 for param in &c.named_params {
                     r += opt.consume(&write_ident_part(&param.name))?;
+                    if let Some(ty) = &param.ty {
+                        r += opt.consume(" ")?;
+                        let ty = ty.write_between("<", ">", opt.clone())?;
+                        r += opt.consume(&ty)?;
+                    }
                     r += opt.consume(":")?;
                     // a default value is read like an argument of a call: anything that binds
                     // weaker than a call (and a call itself) needs parentheses
